@@ -29,6 +29,18 @@ def run():
         if replay:
             raise MachineryError("replay files of C15 are descriptive; rerun the check")
         return m.main()
+    if prop == "C12":
+        from . import check_runtime as m
+
+        if replay:
+            raise MachineryError("replay files of C12 are descriptive; rerun the check")
+        return m.main()
+    if prop == "C14":
+        from . import check_drivers as m
+
+        if replay:
+            raise MachineryError("replay files of C14 are descriptive; rerun the check")
+        return m.main()
     raise MachineryError("no check registered for " + prop)
 
 
